@@ -503,3 +503,53 @@ func (fi *FnInfo) FactsOnEdge(pred, succ *ssa.BasicBlock) []Fact {
 	}
 	return out
 }
+
+// IntervalAt computes the interval of v implied by the dominating integer
+// comparisons of v with constants at the instruction (≠ facts are ignored
+// unless they trim a bound).
+func (fi *FnInfo) IntervalAt(at ssa.Instruction, v ssa.Value) (lo, hi int64) {
+	return IntervalOf(fi.Facts(at), v)
+}
+
+// IntervalOf is IntervalAt over an explicit fact list.
+func IntervalOf(facts []Fact, v ssa.Value) (lo, hi int64) {
+	lo, hi = NegInf, PosInf
+	rv := Resolve(v)
+	ne := map[int64]bool{}
+	for _, f := range facts {
+		c, ok := DecodeIntCmp(f.Cond)
+		if !ok || Resolve(c.Expr) != rv {
+			continue
+		}
+		inside := f.Truth != c.NotEq
+		l, h := c.TrueSet.Lo, c.TrueSet.Hi
+		if inside {
+			if l > lo {
+				lo = l
+			}
+			if h < hi {
+				hi = h
+			}
+		} else {
+			switch {
+			case l == NegInf && h != PosInf:
+				if h+1 > lo {
+					lo = h + 1
+				}
+			case h == PosInf && l != NegInf:
+				if l-1 < hi {
+					hi = l - 1
+				}
+			case l == h:
+				ne[l] = true
+			}
+		}
+	}
+	for lo <= hi && ne[lo] {
+		lo++
+	}
+	for lo <= hi && ne[hi] {
+		hi--
+	}
+	return
+}
